@@ -144,12 +144,14 @@ def hard(sc):
     where = sc['where']                  # 'job' | 'pool' | 'both'
     cbs = []
     pool = bp.Pool(sc['procs'], timeout=(lim if where in ('pool', 'both') else None),
-                   enable_timeouts=True)
+                   enable_timeouts=True,
+                   initializer=targets.become_group_leader if sc.get('leader') else None)
     kw = {}
     if where in ('job', 'both'):
         kw['timeout'] = lim if where == 'job' else 0.3
     t0 = time.monotonic()
-    h = pool.apply_async(targets.announce_and_block, (mark, 60),
+    task = targets.announce_and_block_stubborn if sc.get('stubborn') else targets.announce_and_block
+    h = pool.apply_async(task, (mark, 60),
                          timeout_callback=lambda soft, timeout: cbs.append((soft, timeout)), **kw)
     victim = _wait_file(mark)
     o = _outcome(h, 8)
